@@ -159,7 +159,7 @@ func (ig *ingest) gates(e *Effect) {
 		case msg.Op == "call" && msg.Name == "messagesfactory.CreateViewChangeMessage" && len(msg.Args) == 4:
 			rcpt := ev.Arg(2)
 			want := T("array", "", k.LeaderOf(msg.Args[2]))
-			ev.Verdict("L2.rcpt", props("C05", "C09"), "a VIEW_CHANGE for view v is sent to exactly the leader of v", "", ev.Same(rcpt, want), "recipients "+PP(rcpt))
+			ev.Verdict("L2.rcpt", props("C05", "C09", "C18"), "a VIEW_CHANGE for view v is sent to exactly the leader of v", "", ev.Same(rcpt, want), "recipients "+PP(rcpt))
 			ev.Require("L2.notleader", props("C05", "C09", "C18"), "the vote is sent over the network only when this node is not itself the leader of the new view", "", Ne(k.LeaderOf(msg.Args[2]), k.MyId))
 		case msg.Op == "call" && msg.Name == "messagesfactory.CreatePrepareMessage":
 			// the proposal it answers was stored first
@@ -217,7 +217,7 @@ func (ig *ingest) gates(e *Effect) {
 	case e.Kind == "call" && e.Name == "interfaces.RequestOrderedCommittee" && len(e.Args) == 5:
 		ev := a.NewEval(e, ig.r)
 		ig.ctxProvenance(ev, "K6.committee", ev.Arg(1), ev.Arg(2), Const("18446744073709551615"))
-		ev.Require("K6.committee.live", props("C15", "C16"), "the committee is requested only while the term's context is live (checked in the same iteration)", "", ErrNil(Call("context.Err", ev.Arg(1))))
+		ev.Require("K6.committee.live", props("C15", "C16", "C14"), "the committee is requested only while the term's context is live (checked in the same iteration)", "", ErrNil(Call("context.Err", ev.Arg(1))))
 
 	// ------------------------------------------------ timer registration (L1 / T-rules share)
 	case e.Kind == "call" && e.Name == "interfaces.RegisterOnElection" && len(e.Args) == 4:
